@@ -1220,6 +1220,13 @@ func mergeParagraphProperties(base, override *ParagraphProperties) *ParagraphPro
 		merged.OutlineLevel = base.OutlineLevel
 	}
 
+	// 合并网格对齐
+	if override.SnapToGrid != nil {
+		merged.SnapToGrid = override.SnapToGrid
+	} else if base.SnapToGrid != nil {
+		merged.SnapToGrid = base.SnapToGrid
+	}
+
 	return merged
 }
 
